@@ -66,10 +66,14 @@ LiveChunk(c) ==
   \/ \E h \in held : h.chunk = c
 
 \* ---- content ---------------------------------------------------------------
-SliceCells(s) == IF s.w = NoChunk THEN s.ext ELSE SubSeq(chunks[s.w].cells, s.off + 1, s.off + s.len)
-RECURSIVE CatCells(_, _)
-CatCells(ss, i) == IF i > Len(ss) THEN << >> ELSE SliceCells(ss[i]) \o CatCells(ss, i + 1)
-Bytes(o) == CatCells(obj[o].slices, 1)                       \* abstraction function to IovecPipe's buf
+\* (pure versions take the object record and the chunk table, so that other modules can compose them)
+SliceCellsP(chs, s) == IF s.w = NoChunk THEN s.ext ELSE SubSeq(chs[s.w].cells, s.off + 1, s.off + s.len)
+RECURSIVE CatCellsP(_, _, _)
+CatCellsP(chs, ss, i) == IF i > Len(ss) THEN << >> ELSE SliceCellsP(chs, ss[i]) \o CatCellsP(chs, ss, i + 1)
+BytesP(ob, chs) == CatCellsP(chs, ob.slices, 1)
+SliceCells(s) == SliceCellsP(chunks, s)
+CatCells(ss, i) == CatCellsP(chunks, ss, i)
+Bytes(o) == BytesP(obj[o], chunks)                            \* abstraction function to IovecPipe's buf
 
 \* stable_prefix: slices before the slice holding the earliest pending backref
 FirstLive(brs) == LET I == {i \in 1..Len(brs) : brs[i].live} IN IF I = {} THEN 0 ELSE CHOOSE i \in I : \A j \in I : i <= j
@@ -77,10 +81,11 @@ StableCount(ob) ==
   LET f == FirstLive(ob.backrefs) IN
   IF f = 0 THEN Len(ob.slices)
   ELSE IMin(IMax(ob.backrefs[f].slice - ob.cslices, 0), Len(ob.slices))
-StableBytes(o) == CatCells(SubSeq(obj[o].slices, 1, StableCount(obj[o])), 1)
+StableBytesP(ob, chs) == CatCellsP(chs, SubSeq(ob.slices, 1, StableCount(ob)), 1)
+StableBytes(o) == StableBytesP(obj[o], chunks)
 
 \* ---- the arena ---------------------------------------------------------------
-Remaining(ob) == IF ob.cache.chunk = NoChunk THEN 0 ELSE chunks[ob.cache.chunk].cap - ob.cache.bump
+RemainingP(ob, chs) == IF ob.cache.chunk = NoChunk THEN 0 ELSE chs[ob.cache.chunk].cap - ob.cache.bump
 MaxSeq == ChunkSizes[Len(ChunkSizes)]
 HintSize(len, prev) ==
   IF len >= MaxSeq THEN ((len + ChunkSizes[1] - 1) \div ChunkSizes[1]) * ChunkSizes[1]
@@ -138,7 +143,7 @@ IsLast(ob, s) == s.w # NoChunk /\ s.w = ob.cache.chunk /\ s.off + s.len = ob.cac
 
 Push(ob, chs, cells) ==           \* OwningIovec::push: copy small or appendable, else borrow
   LET small == Len(cells) <= SMALL
-      appendable == Len(cells) <= OPP /\ Remaining(ob) >= Len(cells) /\ ob.slices # << >> /\ IsLast(ob, ILast(ob.slices))
+      appendable == Len(cells) <= OPP /\ RemainingP(ob, chs) >= Len(cells) /\ ob.slices # << >> /\ IsLast(ob, ILast(ob.slices))
   IN IF small \/ appendable THEN PushCopy(ob, chs, cells)
      ELSE [ob |-> PushBorrowedSlice(ob, [w |-> NoChunk, off |-> 0, len |-> Len(cells), ext |-> cells]), chunks |-> chs]
 
@@ -210,31 +215,60 @@ DoHold(o, n) ==
      /\ chunks' = WriteCells(al.chunks, al.slice.w, al.slice.off, Stamps(n))
      /\ held' = held \cup {[id |-> nheld + 1, chunk |-> al.slice.w, off |-> al.slice.off, len |-> n, cells |-> Stamps(n)]}
   /\ stamp' = stamp + n /\ nheld' = nheld + 1 /\ UNCHANGED <<tokens, abs, nreg>>
+\* a short read: read_n allocates n bytes, the reader delivers only got < n, the tail is released (bump moves back)
+DoHoldShort(o, n, got) ==
+  /\ Spend /\ Alive(o) /\ Cardinality(held) < 2 /\ got < n
+  /\ LET al == Alloc(obj[o], chunks, n, FALSE)
+         cache2 == [al.cache EXCEPT !.bump = al.slice.off + got]          \* release_or_die(remainder)
+     IN /\ obj' = [obj EXCEPT ![o].cache = cache2]
+        /\ chunks' = WriteCells(al.chunks, al.slice.w, al.slice.off, Stamps(got))
+        /\ held' = IF got = 0 THEN held       \* an empty AnchoredSlice still carries the anchor in the code; it is dropped at once here
+                   ELSE held \cup {[id |-> nheld + 1, chunk |-> al.slice.w, off |-> al.slice.off, len |-> got, cells |-> Stamps(got)]}
+  /\ stamp' = stamp + got /\ nheld' = nheld + 1 /\ UNCHANGED <<tokens, abs, nreg>>
+\* consumer().take_arena() / swap_arena between two objects
+DoSwapArena(o, q) ==
+  /\ Spend /\ Alive(o) /\ Alive(q) /\ o # q
+  /\ obj' = [obj EXCEPT ![o].cache = obj[q].cache, ![q].cache = obj[o].cache]
+  /\ UNCHANGED <<chunks, held, tokens, stamp, nreg, nheld, abs>>
 DoRelease(h) == /\ Spend /\ h \in held /\ held' = held \ {h} /\ UNCHANGED <<obj, chunks, tokens, stamp, nreg, nheld, abs>>
+
+\* register_patch(pattern of n bytes) as a pure operator: returns [ob, chunks, tok]
+RegisterOp(ob0, chs, n, id, cells) ==
+  LET r == PushCopy(ob0, chs, cells)
+      ob == r.ob
+      info == [end |-> ob.logical, slice |-> ob.cslices + Len(ob.slices) - 1, begin |-> ILast(ob.slices).len - n,
+               len |-> n, live |-> TRUE]
+  IN [ob |-> [ob EXCEPT !.backrefs = Append(@, info)], chunks |-> r.chunks,
+      tok |-> [end |-> info.end, slice |-> info.slice, begin |-> info.begin, len |-> n, id |-> id]]
+
+\* backfill_or_panic as a pure operator: returns [ok (the code's asserts hold), ob, chunks]
+BackfillOp(ob, chs, t, fill) ==
+  LET idx == t.slice - ob.cslices + 1
+      found == \E i \in 1..Len(ob.backrefs) : ob.backrefs[i].end = t.end /\ ob.backrefs[i].live
+      inrange == idx >= 1 /\ idx <= Len(ob.slices)
+      s == ob.slices[idx]
+      ok == found /\ inrange /\ s.w # NoChunk /\ t.begin + t.len <= s.len
+  IN [ok |-> ok,
+      ob |-> IF ok THEN [ob EXCEPT !.backrefs = RemoveBackref(@, t.end)] ELSE ob,
+      chunks |-> IF ok THEN WriteCells(chs, s.w, s.off + t.begin, fill) ELSE chs]
 
 DoRegister(o, n) ==
   /\ Spend /\ Alive(o) /\ Cardinality({t \in tokens : t.o = o}) < 3
   /\ LET id == nreg + 1
          cells == [i \in 1..n |-> HOLE(id)]
-         r == PushCopy(obj[o], chunks, cells)
-         ob == r.ob
-         info == [end |-> ob.logical, slice |-> ob.cslices + Len(ob.slices) - 1, begin |-> ILast(ob.slices).len - n,
-                  len |-> n, live |-> TRUE]
-     IN /\ obj' = [obj EXCEPT ![o] = [ob EXCEPT !.backrefs = Append(@, info)]]
+         r == RegisterOp(obj[o], chunks, n, id, cells)
+     IN /\ obj' = [obj EXCEPT ![o] = r.ob]
         /\ chunks' = r.chunks
-        /\ tokens' = tokens \cup {[o |-> o, end |-> info.end, slice |-> info.slice, begin |-> info.begin, len |-> n, id |-> id]}
+        /\ tokens' = tokens \cup {[o |-> o, end |-> r.tok.end, slice |-> r.tok.slice, begin |-> r.tok.begin, len |-> n, id |-> id]}
         /\ abs' = [abs EXCEPT ![o].buf = @ \o cells, ![o].pend = @ \cup {id}]
   /\ nreg' = nreg + 1 /\ UNCHANGED <<held, stamp, nheld>>
 
 DoBackfill(t) ==
   /\ Spend /\ t \in tokens /\ Alive(t.o)
-  /\ \E i \in 1..Len(obj[t.o].backrefs) : obj[t.o].backrefs[i].end = t.end /\ obj[t.o].backrefs[i].live      \* else the code panics ("backref not found")
-  /\ LET ob == obj[t.o]
-         idx == t.slice - ob.cslices + 1                                       \* get_logical_slice
-         s == ob.slices[idx]
-     IN /\ idx >= 1 /\ idx <= Len(ob.slices) /\ s.w # NoChunk /\ t.begin + t.len <= s.len     \* asserted by the code
-        /\ chunks' = WriteCells(chunks, s.w, s.off + t.begin, [i \in 1..t.len |-> FILL(t.id)])
-        /\ obj' = [obj EXCEPT ![t.o].backrefs = RemoveBackref(@, t.end)]
+  /\ LET r == BackfillOp(obj[t.o], chunks, t, [i \in 1..t.len |-> FILL(t.id)]) IN
+     /\ r.ok                                                   \* else the code panics
+     /\ chunks' = r.chunks
+     /\ obj' = [obj EXCEPT ![t.o] = r.ob]
   /\ tokens' = tokens \ {t}
   /\ abs' = [abs EXCEPT ![t.o].buf = [i \in 1..Len(@) |-> IF @[i] = HOLE(t.id) THEN FILL(t.id) ELSE @[i]], ![t.o].pend = @ \ {t.id}]
   /\ UNCHANGED <<held, stamp, nreg, nheld>>
@@ -290,7 +324,8 @@ Next ==
   \/ \E id \in 1..4 : DoBackfillId(id)
   \/ \E o \in Objs, k \in {1, 2, 9} : DoConsume(o, k) \/ DoAdvance(o, k)
   \/ \E o \in Objs : DoClear(o) \/ DoFlush(o) \/ DoDrop(o) \/ DoEnsure(o, 3)
-  \/ \E o, q \in Objs : DoClone(o, q) \/ DoTake(o, q)
+  \/ \E o, q \in Objs : DoClone(o, q) \/ DoTake(o, q) \/ DoSwapArena(o, q)
+  \/ \E o \in Objs, got \in {0, 1} : DoHoldShort(o, 3, got)
 Spec == Init /\ [][Next]_vars
 
 \* ---- invariants ----------------------------------------------------------------
